@@ -258,6 +258,19 @@ func (p *Program) Summaries() *Summaries {
 							}
 							switch a := ast.Unparen(x.Args[cb.idx]).(type) {
 							case *ast.FuncLit:
+							case *ast.SelectorExpr:
+								// a method value (finder.visit): an ordinary call edge to the method
+								if sel := info.Selections[a]; sel != nil && sel.Kind() == types.MethodVal {
+									if f, ok := sel.Obj().(*types.Func); ok {
+										edges = append(edges, callEdge{from: caller, callee: f})
+										break
+									}
+								}
+								if f, ok := info.Uses[a.Sel].(*types.Func); ok {
+									edges = append(edges, callEdge{from: caller, callee: f})
+								} else {
+									known = false
+								}
 							default:
 								if f, ok := objOf(info, a).(*types.Func); ok {
 									edges = append(edges, callEdge{from: caller, callee: f})
